@@ -120,13 +120,17 @@ structure EventH where
   typ : Slice
 deriving Repr, DecidableEq, Inhabited
 
+/-- `Tags` read through the reference. -/
+def tagsRead (h : Heap) (t : Option Nat) : List Bytes :=
+  match t with
+  | some i => (obsAt h i).tags
+  | none => []
+
 /-- the event as it reads through the heap now. -/
 def deref (h : Heap) (eh : EventH) : Event :=
   { eh.core with
     paths := eh.pathRefs.map (fun i => ((obsAt h i).data).getD [])
-    tags := match eh.tagRef with
-      | some i => (obsAt h i).tags
-      | none => []
+    tags := tagsRead h eh.tagRef
     ecsCategory := readSlice h eh.cat
     ecsType := readSlice h eh.typ }
 
@@ -150,6 +154,12 @@ def primaryOf (pv : List (Nat × View)) : Option (Nat × View) :=
   | [] => none
   | [p] => some p
   | _ => pv.find? (fun p => decide (p.2.typ = SYSCALL))
+
+/-- the message whose `tags` slice the event's `Tags` is (none: `newEvent` returned early). -/
+def tagRefOf (pv : List (Nat × View)) : Option Nat :=
+  match primaryOf pv with
+  | some p => if p.2.data.isSome then some p.1 else none
+  | none => none
 
 def pathRefsOf (pv : List (Nat × View)) : List Nat :=
   match pv with
@@ -192,9 +202,7 @@ def coalesceH (T : Tables) (h : Heap) (ids : List Nat) : Heap × Outcome EventH 
   match coalesce T views with
   | .ok e =>
     (r.1, .ok { core := e, pathRefs := pathRefsOf pv,
-                tagRef := match primaryOf pv with
-                  | some p => if p.2.data.isSome then some p.1 else none
-                  | none => none,
+                tagRef := tagRefOf pv,
                 cat := r.2.1, typ := r.2.2 })
   | .err x => (r.1, .err x)
   | .panic => (r.1, .panic)
